@@ -93,6 +93,25 @@ pub fn worker(reg: &[VT], args: &[String]) -> i32 {
 
 pub fn run(tier: Tier, reg: &[VT]) -> Report {
 	let mut rep = Report::new("C05", tier);
+	{
+		// the generated corpus consists of valid definitions only: if it no longer compiles, the derive
+		// macros reject valid input (and the layout of those definitions cannot be what they declare)
+		let rej = corpus_rejections();
+		if !rej.is_empty() {
+			let mut acc = Acc::default();
+			for (def, err) in rej {
+				acc.evaluations += 1;
+				acc.violate(Violation {
+					property: "C05".into(),
+					sub: "C05.corpus".into(),
+					key: "C05|generated-valid-definition-rejected".into(),
+					detail: format!("a valid generated definition no longer compiles: `{}`: {}", def, err),
+					case: json!({"sub": "C05.corpus", "definition": def, "error": err}),
+				});
+			}
+			rep.part("corpus build", "the generated corpus of valid type definitions must compile against the current tree", acc);
+		}
+	}
 	let types = derived(reg);
 	let b = if tier.thorough() { domain::Bound::thorough() } else { domain::Bound::quick() };
 
